@@ -130,6 +130,22 @@ func dumpIncomplete(d string) string {
 	if strings.Contains(t, "(let)") {
 		return "令： without any pair"
 	}
+	// the key of a 【key = value】 pair is a name, a text or a number (‹键值对› in the grammar)
+	for from := 0; ; {
+		i := strings.Index(t[from:], "(kv (")
+		if i < 0 {
+			break
+		}
+		i += from + len("(kv (")
+		from = i
+		if !strings.HasPrefix(t[i:], "id ") && !strings.HasPrefix(t[i:], "str ") {
+			end := i + 12
+			if end > len(t) {
+				end = len(t)
+			}
+			return "a dictionary pair whose key is neither a name, a text nor a number: (" + t[i:end] + "…"
+		}
+	}
 	return ""
 }
 
@@ -339,6 +355,9 @@ func checkC05(c *Ctx) {
 					add([]rune(h + "\n    " + b + "\n" + tail))
 				}
 			}
+		}
+		for _, t := range []string{"令X = 【A之B = 1】", "令X = 【其B = 1】", "令X = 【A#1 = 2】", "令X = 【1 + 2 = 3】", "令X = 【A 或 B = 1】", "令X = 【（F） = 1】", "令X = 【【1】 = 2】", "令X = 【{A} = 1】", "令X = 【以A（F） = 1】", "令X = 【A = 1，B之C = 2】", "令X = 【“k” = 1，A > 1 = 2】", "令X = 【A == 1 = 2】"} {
+			add([]rune(t))
 		}
 		for _, t := range []string{"令`` = 1", "`` = 1", "A之`` = 1", "如何``？\n\t输出 1\n", "定义``：\n\t其A = 1\n", "输入``\n", "以``遍历A：\n\tB\n", "（``）", "（``：1）", "以A（``）", "其`` = 1", "A = B之``", "导入“A”之``"} {
 			add([]rune(t))
